@@ -106,7 +106,7 @@ impl Check for CrashCheck {
         300
     }
     fn parts(&self, tier: Tier) -> Vec<Part> {
-        vec![Part { name: "crash", kind: PartKind::Random { cases: tier.pick(320, 5000), main: 90, ops: 3, oplen: 40, sched: 40 } }]
+        vec![Part { name: "crash", kind: PartKind::Random { cases: tier.pick(1600, 20000), main: 90, ops: 3, oplen: 40, sched: 40 } }]
     }
     fn run_random(&mut self, _part: &str, case: &Case, env: &mut Env) -> CaseOut {
         self.explore(case, env, None)
